@@ -285,6 +285,42 @@ def anomaly_case():
                 desc="AnomalyListener._diff(x) lies in [-pi, pi) and differs from x - value by a multiple of 2 pi")
 
 
+def anomaly_check_case():
+    """AnomalyListener.check: a crossing of the target between two samples is reported exactly when the *wrapped* difference
+    changes sign and the current sample is within 2 rad of the target (which rules the jump at +-pi out) -- wherever the raw
+    anomaly and the target value sit with respect to 0 / 2 pi"""
+    ins = [("xp", "real"), ("xc", "real"), ("val", "real")]
+
+    def run(env, v):
+        ls = env.mod("beyond.propagators.listeners") if env.symbolic else importlib.import_module("beyond.propagators.listeners")
+        a = ls.AnomalyListener(v["val"], "true")
+        a._convert = lambda orb: v[orb]
+        a.prev = "xp"
+        chk = bool(a.check("xc"))
+        if env.symbolic:
+            from symx.dtmodel import rfloor
+            two_pi = 2 * core.PI
+            wrap = lambda x: x - v["val"] - two_pi * rfloor((x - v["val"] + core.PI) / two_pi)
+        else:
+            import math
+            wrap = lambda x: (x - v["val"]) - 2 * math.pi * math.floor((x - v["val"] + math.pi) / (2 * math.pi))
+        dp, dc = wrap(v["xp"]), wrap(v["xc"])
+        sgn = lambda d: 1 if bool(d > 0) else (-1 if bool(d < 0) else 0)
+        expected = bool(dc < 2) and bool(dc > -2) and sgn(dp) != sgn(dc)
+        return {"check_iff_wrapped_crossing": 1 if chk == expected else 0}
+
+    def ref(env, v, out):
+        return {"check_iff_wrapped_crossing": 1}
+
+    def pre(v):
+        # the raw anomaly of a sample lies in [0, 2 pi); the target may be given as any equivalent angle
+        return [v["xp"] >= 0, v["xc"] >= 0, v["xp"] < 2 * core.PI, v["xc"] < 2 * core.PI, v["val"] > -7, v["val"] < 14]
+    return Case("anomaly_check", ins, run, ref, pre=pre, timeout=60, maxpaths=400, tol=0, abs_tol=0.5,
+                desc="AnomalyListener.check(sample) is true exactly when the difference to the target, wrapped into [-pi, pi), changes "
+                     "sign between the previous and the current sample and is below 2 rad in absolute value at the current one; samples "
+                     "in [0, 2 pi), target anywhere in (-7, 14) rad")
+
+
 def labels_case():
     """labels follow the direction: AOS iff elevation rate > 0, Asc Node iff latitude rate >= 0; station guards"""
     ins = [("phi", "real"), ("phi_dot", "real"), ("gprev", "real"), ("gnow", "real")]
@@ -529,7 +565,7 @@ class _ConcOrb(np.ndarray):
 def all_cases(tier):
     b = bounds(tier)
     cs = [listen_case(n) for n in range(1, b["listeners"] + 1)]
-    cs += [bisect_case(b["bisect_decisions"]), bisect_step_case(), anomaly_case(), labels_case(), stream_case(), visibility_case(), light_case("umbra"),
+    cs += [bisect_case(b["bisect_decisions"]), bisect_step_case(), anomaly_case(), anomaly_check_case(), labels_case(), stream_case(), visibility_case(), light_case("umbra"),
            light_case("penumbra")]
     return cs
 
